@@ -599,6 +599,8 @@ func (jp *jobProvider) truncateJob(job *Job) {
 	job.ignoreEventsLE = job.lastEventSeq
 
 	job.seek(0, io.SeekStart, "truncation")
+	// the unterminated line read before the truncation no longer exists: do not glue it in front of the first new line
+	job.tail = job.tail[:0]
 
 	for _, strOff := range job.offsets {
 		job.offsets.Set(strOff.Stream, 0)
